@@ -252,6 +252,8 @@ struct PortDesc
   std::function<void*()> make_injected;                                // injected ports: create the user's instance
   std::function<void(dzn::locator&, void*)> put_injected;
   std::function<const void*(void* port_obj)> meta_addr;
+  std::function<void*()> make_user;                                    // exposed ports: a user-side port object
+  std::function<void(void* shell, const std::string& client, void* user_port)> connect;  // via <ns>::ConnectPorts
 };
 
 struct ShellOps
